@@ -362,6 +362,59 @@ def _cubic(chk):
             lambda: explore().verdict("cubic refinement: the hit time stays inside its bracketing interval [t_k, t_k+1]"))
 
 
+def _engine_forwarding(chk):
+    """_SynodicEngine.solve: every backend request - serial or one per worker - carries ALL detection settings of the
+    template request (direction included) and the trajectories are partitioned with their original indices; the set of
+    hits does not depend on the worker count."""
+    import dataclasses
+    import hiten.algorithms.poincare.synodic.engine as en
+    from hiten.algorithms.poincare.synodic.types import SynodicBackendRequest
+    from pyvc.core import real_self
+
+    def th():
+        fields = [f.name for f in dataclasses.fields(SynodicBackendRequest)]
+        settings = [f for f in fields if f not in ("trajectories", "trajectory_indices")]
+        sent = {"normal": "N", "offset": 0.25, "plane_coords": ("x", "vx"), "interp_kind": "cubic", "segment_refine": 3,
+                "tol_on_surface": 1e-9, "dedup_time_tol": 2e-9, "dedup_point_tol": 3e-9, "max_hits_per_traj": 7,
+                "newton_max_iter": 11, "direction": -1}
+        # the detection settings named by the property (plane, direction, interpolation, tolerances, limits); other fields
+        # of the request (metadata ...) are not constrained
+        settings = [f for f in sent if f in fields]
+        if len(settings) < 8:
+            raise RuntimeError("harness: SynodicBackendRequest no longer has the detection-setting fields this contract names")
+        template = SynodicBackendRequest(trajectories=[], trajectory_indices=[], **{k: sent[k] for k in settings})
+        trajs = ["T0", "T1", "T2", "T3", "T4"]
+        for n_workers in (1, 2, 3, 8):
+            reqs = []
+
+            def backend_run(request):
+                reqs.append(request)
+                return _Obj(hits=[[_Obj(point2d=(0.0, 0.0), state=_np.zeros(6), time=0.0, trajectory_index=i)]
+                                  for i in request.trajectory_indices])
+            eng = real_self(en._SynodicEngine, _backend=_Obj(run=backend_run),
+                            _interface=_Obj(to_backend_inputs=lambda problem: _Obj(request=template),
+                                            to_results=lambda response, problem=None: response))
+            out = en._SynodicEngine.solve(eng, _Obj(trajectories=trajs, n_workers=n_workers))
+            seen = []
+            for r in reqs:
+                for f in settings:
+                    if getattr(r, f) != sent[f]:
+                        raise Refuted(f"n_workers = {n_workers}: a backend request is built with {f} = {getattr(r, f)!r} instead of "
+                                      f"the configured {sent[f]!r}", "the detection settings do not reach every worker",
+                                      inputs={"n_workers": n_workers, "field": f})
+                if [trajs[i] for i in r.trajectory_indices] != list(r.trajectories):
+                    raise Refuted(f"n_workers = {n_workers}: trajectories and their original indices do not correspond",
+                                  str((r.trajectory_indices, r.trajectories)))
+                seen += list(r.trajectory_indices)
+            if sorted(seen) != list(range(len(trajs))):
+                raise Refuted(f"n_workers = {n_workers}: the workers' trajectory subsets are not a partition", str(seen))
+            if sorted(int(i) for i in out.trajectory_indices) != list(range(len(trajs))):
+                raise Refuted(f"n_workers = {n_workers}: hits lost or duplicated when gathering", str(out.trajectory_indices))
+    chk.obl("_SynodicEngine.solve: every backend request (serial, 2, 3, 8 workers) carries all detection settings of the template "
+            "(direction, plane, interpolation, tolerances, limits); trajectories partitioned with their own indices; all hits "
+            "gathered", "K2 wiring", ["hiten.algorithms.poincare.synodic.engine:_SynodicEngine.solve"], "B4 exact evaluation", th)
+
+
 def run(chk):
     loader.install()
     chk.under_contract(SB + ":_compute_event_values", SB + ":_on_surface_indices", SB + ":_crossing_indices_and_alpha",
@@ -376,3 +429,4 @@ def run(chk):
     _dedup(chk)
     _assembled(chk)
     _cubic(chk)
+    _engine_forwarding(chk)
